@@ -31,7 +31,7 @@ class Unspecified(Exception):
 
 
 class Result:
-    __slots__ = ("data", "errors", "calls", "request_error", "has_data", "unspecified")
+    __slots__ = ("data", "errors", "calls", "request_error", "has_data", "unspecified", "null_variable_paths")
 
     def __init__(self):
         self.data = None
@@ -40,6 +40,7 @@ class Result:
         self.request_error = None
         self.has_data = False
         self.unspecified = None
+        self.null_variable_paths = []  # field errors caused by a null variable at a non-null position
 
 
 def _kinds():
@@ -128,7 +129,10 @@ class Ref:
                     raise FieldError
             else:
                 if v is None and isinstance(a.type, self.NonNull):
-                    raise FieldError
+                    try:
+                        raise rc.NullVariable
+                    except rc.NullVariable as nv:
+                        raise FieldError from nv
                 out[key] = v
         return out
 
@@ -236,7 +240,9 @@ class Ref:
     def field(self, fdef, src, nodes, path):
         try:
             args = self.argument_values(fdef, nodes[0])
-        except FieldError:
+        except FieldError as e:
+            if isinstance(e.__cause__, rc.NullVariable):
+                self.res.null_variable_paths.append(tuple(path))
             self.err(path)
             raise
         self.res.calls.append((tuple(path), args))
